@@ -227,6 +227,48 @@ def check_process_equals_circuit(kind):
     return runner.from_exploration(name, Exploration(name, body).run())
 
 
+def check_testbench_order():
+    """testbenches run in the order in which they were added, also when an earlier one wakes a later one in the middle of
+    a pass: `monitor` (added second, waiting for `valid`) sees the data `driver` (added first) wrote, not what `other`
+    (added third, ready in the same time step) writes -- for ALL data values"""
+    from amaranth.hdl import Module, Signal
+    from amaranth.sim import Simulator
+    name = "engine[testbench-order]"
+
+    def body(path):
+        valid, data, tickc = Signal(name="valid"), Signal(8, name="data"), Signal(name="t")
+        m = Module()
+        m.d.sync += tickc.eq(~tickc)
+        sim = Simulator(m)
+        sim.add_clock(1e-6)
+        d1, d2 = path.var("d1", 0, 255), path.var("d2", 0, 255)
+        res = {"order": []}
+
+        async def driver(ctx):
+            await ctx.tick()
+            res["order"].append("driver")
+            ctx.set(data, d1)
+            ctx.set(valid, 1)
+
+        async def monitor(ctx):
+            await ctx.changed(valid)
+            res["order"].append("monitor")
+            res["seen"] = ctx.get(data)
+
+        async def other(ctx):
+            await ctx.tick()
+            res["order"].append("other")
+            ctx.set(data, d2)
+        sim.add_testbench(driver)
+        sim.add_testbench(monitor)
+        sim.add_testbench(other)
+        with symbolic_engine():
+            sim.run_until(1.2e-6)
+        path.prove(f"{name}::run-in-added-order", res["order"] == ["driver", "monitor", "other"])
+        path.prove(f"{name}::monitor-sees-drivers-data", to_sint(res.get("seen", -1)) == d1)
+    return runner.from_exploration(name, Exploration(name, body).run())
+
+
 # ------------------------------------------------------------------------------------------------
 # kernel model vs. real engine
 
@@ -343,7 +385,7 @@ def check_kernel_agrees(k, e=None, broken=False):
 
 def tasks(tier):
     ts = [("engine-chain", edge, rot) for edge in ("pos", "neg") for rot in ((0, 1, 2, 3) if tier == "quick" else range(6))]
-    ts += [("engine-proc", "comb"), ("engine-proc", "sync")]
+    ts += [("engine-proc", "comb"), ("engine-proc", "sync"), ("engine-tb-order",)]
     ts += kernel_tasks(tier)
     return ts
 
@@ -354,6 +396,8 @@ def run_task(task):
         return check_chain(task[1], task[2])
     if k == "engine-proc":
         return check_process_equals_circuit(task[1])
+    if k == "engine-tb-order":
+        return check_testbench_order()
     if k == "kernel-agrees":
         return check_kernel_agrees(task[1], task[2])
     if k == "canary-kernel-agrees":
